@@ -228,3 +228,15 @@ pub fn next_alpha(rng: &mut Rng, prev: &[f64], fresh: Vec<f64>) -> Vec<f64> {
     }
     out
 }
+
+/// History-aware variant: with probability 0.12 return exactly the vector applied before the previous
+/// one (the pattern A, B, A - e.g. an optimizer going back after a rejected step)
+pub fn next_alpha_hist(rng: &mut Rng, hist: &[Vec<f64>], fresh: Vec<f64>) -> Vec<f64> {
+    if hist.len() >= 2 && rng.chance(0.12) {
+        return hist[hist.len() - 2].clone();
+    }
+    match hist.last() {
+        Some(prev) => next_alpha(rng, prev, fresh),
+        None => fresh,
+    }
+}
